@@ -383,8 +383,8 @@ def r5_walker_wiring(ctx):
     require_idiom(ok, 'c02.py:377')
     yield Ob('nodeCounter:NodeCounter.increment counts from 1 in steps of 1', ok, ctx.floc(fn), '' if ok else 'increment changed')
     fn = ctx.func('nodeCounter', 'NodeCounter.reset_to_node')
-    txt = ast.unparse(fn)
-    ok = 'parent.is_child_path(x.format())' in txt and 'del self._dict[k]' in txt
+    txt = A.alpha_text(fn)
+    ok = 'L2 = [L3 for L3 in self._dict if L1.is_child_path(L3.format())]' in txt and 'for L4 in L2:\n        del self._dict[L4]' in txt
     require_idiom(ok, 'c02.py:381')
     yield Ob('nodeCounter:NodeCounter.reset_to_node drops exactly the counts below the node', ok, ctx.floc(fn), '' if ok else 'reset changed')
     fn = ctx.func('path', 'X12Path.is_child_path')
